@@ -14,7 +14,7 @@ import random
 from fractions import Fraction as F
 
 from . import common
-from .rec import ExecTrace, PipeIndex
+from .rec import ExecTrace, PipeIndex, to_units
 
 RATIONAL_LAWS = ["const", "linear3", "linear7", "squared", "exp"]
 
@@ -32,6 +32,9 @@ def build_scenario(rng: random.Random, mode: str):
     Q = F(5, tps)            # the quantum: 20 units, a quarter of the memory read in one I/O tick; a*Q is an exact float
     if mode == "orphan":
         mode = "susp"
+    reject = mode == "reject"       # one pool, many inadmissible commands, and the caller goes on after each refusal
+    if reject:
+        mode = "mixed"
     if mode == "swarm":        # many small containers start at once in an overcommitted pool: ten and more victims in one tick
         npools, cpu, ram = 1, rng.choice([16, 24, 32, 80]), Q * rng.choice([16, 24, 32, 48])
         oc, multi = True, False
@@ -47,7 +50,10 @@ def build_scenario(rng: random.Random, mode: str):
         ram = Q * rng.choice([2, 8, 16, 32, 64, 10])
         oc = rng.random() < 0.5
         multi = rng.random() < 0.7
-    if mode == "mixed" and rng.random() < 0.08:
+    if reject:
+        npools, multi = 1, rng.random() < 0.8
+        cpu, ram = rng.choice([2, 3, 4]), Q * rng.choice([16, 32, 40, 64])
+    if mode == "mixed" and not reject and rng.random() < 0.08:
         # a very large pool: a batch that oversells its RAM by one quarter GB is a relative excess of 1e-9
         tps, U, Q = 1, 4, F(5)
         npools, ram, oc = 1, F(2**28), False
@@ -61,9 +67,14 @@ def build_scenario(rng: random.Random, mode: str):
         p = Pipeline(f"p{pi + 1}", rng.choice(list(Priority)))
         nops = rng.randint(1, 3) if mode == "pressure" else rng.randint(2, 4) if mode == "susp" else 1 if mode == "swarm" else rng.randint(1, 4)
         ops = []
+        meant = p._verif_par = []
         for i in range(nops):
             pa = [j for j in range(i) if rng.random() < (0.3 if mode == "pressure" else 0.5)]
-            o = p.new_operator([ops[j] for j in pa] or None)
+            plist = [ops[j] for j in pa]
+            o = p.new_operator(plist or None)
+            meant.append([j + 1 for j in pa])
+            if plist and rng.random() < 0.25:
+                plist.clear() if rng.random() < 0.5 else plist.append(o)          # the caller's scratch list, reused after the call
             for _ in range(rng.choice([1, 1, 1, 2])):
                 law = rng.choice(RATIONAL_LAWS)
                 base = F(4 * rng.choice([0, 1, 3, 5, 9, 15]) + 1, 4 * tps)   # (k + 1/4) ticks on one cpu: never on a boundary
@@ -87,6 +98,8 @@ def build_scenario(rng: random.Random, mode: str):
                              memory_gb=None if fixed is None else float(fixed), storage_read_gb=float(read))
                 o.add_segment(sg)
                 exact[id(sg)] = {"read": read, "fixed": fixed, "base": base}
+                if rng.random() < 0.04:
+                    o.add_segment(sg)          # a stage template used twice: the SAME Segment object is two segments of the operator
             ops.append(o)
         p.runtime_status()
         idx.add(p)
@@ -96,6 +109,7 @@ def build_scenario(rng: random.Random, mode: str):
 def run_one(seed: int, tid: int, mode: str):
     """One trace.  mode: valid | mixed | pressure | susp | swarm | orphan."""
     orphan_mode = mode == "orphan"
+    reject_mode = mode == "reject"
     if orphan_mode:
         mode = "susp"
     from eudoxia.executor.assignment import Assignment, Suspend
@@ -107,19 +121,33 @@ def run_one(seed: int, tid: int, mode: str):
     from eudoxia.executor.container import Container
     Container.next_container_num = rng.choice([1, 1, 1, 8, 97, 995])
     ex, idx, exact, k = build_scenario(rng, mode)
+    if reject_mode:
+        mode = "mixed"
     tps, npools, cpu, ram, oc, multi = k["tps"], k["npools"], k["cpu"], k["ram"], k["oc"], k["multi"]
     tr = ExecTrace(tid, ex, idx, k["U"], tps, mode="step", exact=exact, overcommit=oc, multi=multi,
-                   meta={"seed": seed, "driver": "B", "mode": "orphan" if orphan_mode else mode})
+                   meta={"seed": seed, "driver": "B", "mode": "orphan" if orphan_mode else "reject" if reject_mode else mode})
     valid = mode != "mixed"
     nticks = rng.randint(5, 40) if mode != "swarm" else rng.randint(6, 14)
+    if reject_mode:
+        nticks = rng.randint(25, 60)
     pipes = list(zip(idx.pipes, idx.ops))
     seen_ctr = []   # real container ids seen so far (for bogus suspends)
     distract_at = rng.randrange(nticks) if rng.random() < 0.25 else -1
+    kills = mode in ("valid", "mixed", "susp", "pressure") and rng.random() < 0.2
     for t in range(nticks):
+        if reject_mode:          # most rounds are admissible (so that work goes on); the others carry an oversold or otherwise refused batch
+            valid = rng.random() < 0.6
         if t == distract_at:
             # another simulation is set up in the same process while this one is live: it must not disturb this executor
             from eudoxia.executor import Executor as _Ex
             _Ex(num_pools=1, cpus_per_pool=2, ram_gb_per_pool=4.0, ticks_per_second=tps)
+        # now and then somebody kills a live container from outside (the public Container.kill), between two ticks
+        if kills and rng.random() < 0.12:
+            live = [c for R in ex.pools for c in R.active_containers if not c.is_completed()]
+            if live:
+                c = rng.choice(live)
+                c.kill("evicted")
+                tr.killed(c.container_id, "evicted")
         sus = []
         for kpool, R in enumerate(ex.pools):
             for c in R.active_containers:
@@ -146,9 +174,9 @@ def run_one(seed: int, tid: int, mode: str):
             if orphan_mode and orphan and any(R.suspended_containers for R in ex.pools) and rng.random() < 0.5:
                 sel = [rng.choice(orphan)]
                 valid = False
-            elif not valid and orphan and rng.random() < 0.25:
+            elif not valid and not reject_mode and orphan and rng.random() < 0.25:
                 sel = [rng.choice(orphan)]                 # a child on its own while a parent is unfinished: must be rejected, never executed
-            elif valid or rng.random() < 0.9:
+            elif valid or reject_mode or rng.random() < 0.9:
                 if not legal:
                     continue
                 if multi and rng.random() < (0.9 if mode == "susp" else 0.6):
@@ -181,10 +209,10 @@ def run_one(seed: int, tid: int, mode: str):
                 c = rng.choice([1, 1, 2])
                 r = Q * rng.choice([1, 3, 4, 5, 8, 9, 9, 12, 13, 16, 21])
             else:
-                c = rng.choice([1, 1, 2, max(1, R.avail_cpu_pool), cpu]) if valid or rng.random() < 0.9 else rng.choice([0, cpu + 1, R.avail_cpu_pool + 1])
+                c = rng.choice([1, 1, 2, max(1, R.avail_cpu_pool), cpu]) if valid or rng.random() < (0.8 if reject_mode else 0.9) else rng.choice([0, cpu + 1, R.avail_cpu_pool + 1])
                 r = (rng.choice([Q * rng.choice([1, 2, 4, 5, 8, 9, 12, 13, 16, 21, 24, 32]),
                                  F(R.avail_ram_pool) if R.avail_ram_pool > 0 else Q, ram])
-                     if valid or rng.random() < 0.94 else rng.choice([F(0), F(R.avail_ram_pool) + F(1, k["U"])]))
+                     if valid or rng.random() < (0.85 if reject_mode else 0.94) else rng.choice([F(0), F(R.avail_ram_pool) + F(1, k["U"])]))
             if k["huge"] and rng.random() < 0.35 and R.avail_ram_pool > 0:
                 r = F(R.avail_ram_pool) + F(1, k["U"])          # oversold by a relative 1e-9
             if valid:
@@ -219,9 +247,12 @@ def run_one(seed: int, tid: int, mode: str):
             ru = r * k["U"]
             refs = [[pi + 1, i + 1] for i in sel] + ([[cross[0] + 1, i + 1] for i in cross[1]] if cross else [])
             objs = [ops[i] for i in sel] + ([pipes[cross[0]][1][i] for i in cross[1]] if cross else [])
-            asg_json.append({"ops": refs, "cpu": c, "ram": int(ru), "ramr": 0, "pool": pool + 1})
+            ram_u, ram_r = to_units(float(r), k["U"])          # as the executor sees it (a float), projected like every observed figure
+            asg_json.append({"ops": refs, "cpu": c, "ram": ram_u, "ramr": ram_r if abs(ram_r) > 1 else 0, "pool": pool + 1})
             try:
-                asg.append(Assignment(objs, c, float(r), p.priority, pool, p.pipeline_id))
+                # the optional flags of an Assignment change nothing in what the executor checks or does
+                flags = {} if rng.random() < 0.8 else {"force_run": rng.random() < 0.7, "is_resume": rng.random() < 0.4}
+                asg.append(Assignment(objs, c, float(r), p.priority, pool, p.pipeline_id, **flags))
             except Exception as e:  # noqa: BLE001 - any exception is a refusal
                 raised = f"{type(e).__name__}: {str(e)[:80]}"
                 break
@@ -232,8 +263,15 @@ def run_one(seed: int, tid: int, mode: str):
         try:
             res = ex.run_one_tick(sus, asg)
         except BaseException as e:  # noqa: BLE001 - StopIteration, AttributeError, AssertionError ... all are refusals
-            tr.exec_raised(e)
-            break
+            # a caller may catch the refusal and go on.  With one pool (or a pool number that does not exist) no pool has run before the
+            # refusal, so no result is lost with the exception; the trace then continues from what the refused call left behind
+            # (only refusals of the verification phase: an exception out of a container's tick leaves that container unusable)
+            verification = any(m in str(e) for m in ("Overallocated", "no such pool", "cannot be suspended", "Assignment must have"))
+            go_on = (npools == 1 or "no such pool" in str(e)) and isinstance(e, AssertionError) and verification and rng.random() < (0.9 if reject_mode else 0.5)
+            tr.exec_raised(e, after=go_on)
+            if not go_on:
+                break
+            continue
         tr.exec_ok(res)
     return tr.end()
 
